@@ -73,12 +73,22 @@ func runSelfTest(prop, repo string, baseline map[string]bool, only string) []mut
 		}
 		res[i] = mutantResult{Name: m.Name, Kind: kind, Expected: strings.TrimSpace(m.Rule + " " + m.Substr)}
 		src, err := os.ReadFile(filepath.Join(repo, m.File))
-		if err != nil || bytes.Count(src, []byte(m.Old)) != 1 {
+		// several edits in one file: Old and New are "\x00"-separated lists of equal length
+		olds, news := strings.Split(m.Old, "\x00"), strings.Split(m.New, "\x00")
+		applies := err == nil && len(olds) == len(news)
+		out := src
+		for k := range olds {
+			if !applies || bytes.Count(out, []byte(olds[k])) != 1 {
+				applies = false
+				break
+			}
+			out = bytes.Replace(out, []byte(olds[k]), []byte(news[k]), 1)
+		}
+		if !applies {
 			res[i].Outcome = "skipped"
 			res[i].Reports = []string{"edit no longer applies to the current source (anchor text not found exactly once)"}
 			continue
 		}
-		out := bytes.Replace(src, []byte(m.Old), []byte(m.New), 1)
 		tf := filepath.Join(tmp, fmt.Sprintf("m%d.go", i))
 		os.WriteFile(tf, out, 0o644)
 		wg.Add(1)
